@@ -252,8 +252,7 @@ Proof.
   - rewrite Hl. destruct (Nat.eqb (length (obj_items vo)) (length idxs)); cbn [fst].
     + destruct (install_refines h srcs (EAssign idxs) w old L Hwf Ho Hs) as [new [A [B _]]].
       unfold payload at 1. rewrite A. simpl obj_items. rewrite B, Ht, Hpv, Hph. auto.
-    + destruct (install_refines h srcs ENone w old L Hwf Ho Hs) as [new [A [B _]]].
-      unfold payload at 1. rewrite A. simpl obj_items. rewrite B, Hph. auto.
+    + auto.
 Qed.
 
 (* s -= x : the payloads of the members that are not in x, in order *)
